@@ -9,6 +9,7 @@ import numpy as np
 
 from .common import Run, bool_s, frac_s, guarded, list_s, run_driver
 from .c04 import canon, compositions, ints, respell, sequence_vs_fresh, tiling_tok
+from .c12_gi import check_linear_of, gi_stream, replay_gi
 
 META = {
     "claimed": True,
@@ -27,7 +28,21 @@ META = {
     "is an oracle failure of its own; results are held and re-checked after later calls; the same GeoBox under different "
     "tilings in both directions; every query / dependency oracle also on tilings derived by crop / clip / clip_tiles "
     "not starting at tile 0, after a two-sided structural oracle of the derived object; 4326 triangles / slivers / boxes "
-    "with long curved edges against continental Albers / LAEA / UTM rasters with small tiles).",
+    "with long curved edges against continental Albers / LAEA / UTM rasters with small tiles).  PUBLIC ENTRY POINTS end to end "
+    "(Model/C12Gi, Props/C12Gi): grid_intersect(src) and tiles(query) are modelled from their arguments (CRS identity, kind of "
+    "base raster, affine, shape, tiling): _check_linear's CRS / isinstance tests, the three-way dispatch, the early {} for an "
+    "empty common footprint, and the whole same-CRS general path with nothing left as a parameter (rings of "
+    "polygon_from_transform, their bounding boxes, range_from_bbox through ~affine, shapely's disjoint on convex rings as the "
+    "validated reference semantics Spec/ConvexDisjoint); theorems: for two GeoBoxes of one CRS with ANY invertible affines "
+    "(rotated, sheared, mirrored) grid_intersect lists source tile s for destination tile d whenever a world point lies inside a "
+    "pixel of each - no footprint / shapely hypothesis (grid_intersect_same_crs_general_complete; "
+    "grid_intersect_same_crs_complete for whichever path _check_linear picks), tiles(query) is complete for same-CRS boxes and "
+    "convex geometries, CRS-lessness mismatches raise instead of answering.  The correspondence drives the public calls with "
+    "exact dyadic affines of power-of-two determinant (16 matrices: rotations by 90/45 degrees, shears, mirrors) with and "
+    "without CRS, different CRSs (pyproj values measured), GCPGeoBox bases, singular affines, and compares the chosen path and "
+    "the ordered dict; query geometries of every shape (concave, holes, multi-part with overlapping / nested / interleaved part "
+    "boxes in either order, lines, points, collections; same CRS and lon/lat) are judged per tile by a brute-force shapely "
+    "oracle.",
     "note": "Trusted: Lean kernel + {propext, Classical.choice, Quot.sound}; shapely predicates and pyproj are "
     "parameters (general path: completeness under the footprint-superset hypothesis, `_partial`; cross-CRS pairs are "
     "sampled by the oracle only, threshold 0.5 px^2); same-CRS oracle: overlap > 1e-6 source px^2 and, on the linear "
@@ -37,11 +52,16 @@ META = {
     "entry (on HEAD they raise GEOSException or return no tile for UTM / Albers / LAEA rasters: vertex-wise reprojection). "
     " Modelled since the growth round: range_from_bbox / tiles for boxes carrying a CRS (corners through "
     "~affine, any invertible affine; foreign CRS as a corner-wise parameter), the general path with the model's own candidate "
-    "ranges (gridIntersectGeneralR), rounding on mirrored grids, C12 o C04 link.  NOT mirrored in Lean: pyproj / "
-    "Geometry.to_crs(check_and_fix) and shapely predicates (parameters); GeoBoxBase.footprint(4326, 2) (padding, "
-    "densification), the `&` of the two footprints and the early `{}` for an empty intersection; GeoBox.project for general "
-    "geometries (only boxes); _check_linear's isinstance(GeoBox) / CRS-equality tests; BoundingBox.boundary (float32); "
-    "GCPGeoBox (non-linear) rasters; dict ordering of the result.",
+    "ranges (gridIntersectGeneralR), rounding on mirrored grids, C12 o C04 link; session 3: grid_intersect / tiles dispatch, "
+    "same-CRS general path without parameters (shapely disjoint on convex quadrilaterals = Spec/ConvexDisjoint, validated "
+    "against shapely every run), extent rings compared as intermediate values, result order compared.  As repaired "
+    "(fix2-C12): a CRS-less geometry against a CRS-less raster is mapped to pixels before candidate tiles are picked "
+    "(as found: rotated CRS-less grids lost dependencies, tiles() of a CRS-less polygon returned nothing; _cex "
+    "no_crs_candidates_as_found_cex).  NOT mirrored in Lean: pyproj / Geometry.to_crs(check_and_fix) and shapely predicates on "
+    "NON-convex or reprojected geometries (parameters: verdict flags); GeoBoxBase.footprint(4326, 2) (padding, "
+    "densification) and the `&` of the two footprints (only its emptiness is an input); GeoBox.project for general "
+    "geometries (only boxes / rings); BoundingBox.boundary (float32); extent of GCPGeoBox (non-linear) rasters (dispatch "
+    "only); CRS equality itself (tags; C19).",
     "technique": "Lean 4 proof over hand model + exhaustive/random differential correspondence with real code",
     "design_ref": "DESIGN.md §4 C12",
 }
@@ -568,7 +588,7 @@ def grid_pairs(R: Run, geom, GeoBox, GeoboxTiles, Affine):
             ar = []
 
             def fa():
-                a = dst._check_linear(src)
+                a = check_linear_of(dst, src)
                 ar.append(a)
                 return "N" if a is None else aff_s(a)
 
@@ -1682,6 +1702,7 @@ def run(R: Run):
     stream(box_queries, R, geom, GeoBox, GeoboxTiles, Affine)
     stream(geom_queries, R, geom, GeoBox, GeoboxTiles, Affine)
     stream(snap_cases, R, Affine)
+    stream(gi_stream, R, geom, GeoBox, GeoboxTiles, Affine)
     stream(grid_pairs, R, geom, GeoBox, GeoboxTiles, Affine)
     stream(stateful_sequences, R, geom, GeoBox, GeoboxTiles, Affine)
     stream(highres_stream, R, geom, GeoBox, GeoboxTiles, Affine)
@@ -1702,6 +1723,8 @@ def replay(R: Run, rec) -> int:
     case = rec.get("case") or {}
     key = rec.get("key", "")
     print("replay key:", key, "case:", case)
+    if case.get("gi") and key == "grid-intersect-misses-dependency":
+        return replay_gi(GeoBox, GeoboxTiles, Affine, case)
     if key in ("grid-intersect-disjoint-not-empty", "grid-intersect-misses-dependency") and "D" in case and not case.get("derived"):
         def pa(s):
             return Affine(*[float(Fraction(v)) for v in s.split(";")])
@@ -1713,7 +1736,7 @@ def replay(R: Run, rec) -> int:
         src = mk_gbt(GeoBox, GeoboxTiles, sp(case["sspec"]), pa(case["S"]), case["crs"][1])
         deps = dst.grid_intersect(src)
         print("grid_intersect:", deps)
-        A = dst._check_linear(src) if case["crs"][0] == case["crs"][1] else None
+        A = check_linear_of(dst, src) if case["crs"][0] == case["crs"][1] else None
         lin = A is not None
         need = brute_deps(dst, src, 1e-6, 2.5e-3 + 2.5e-6 * max(dst.base.shape) * max(1.0, abs(A.a), abs(A.e)) if lin else 0.0)
         print("brute-force overlaps:", need)
